@@ -295,7 +295,12 @@ impl<T: Qcow2IoOps> Qcow2Dev<T> {
         {
             Some(to_kill) => {
                 log::warn!("add_rb_slice: cache eviction, slices {}", to_kill.len());
-                self.flush_cache_entries(to_kill).await
+                self.flush_cache_entries(to_kill).await?;
+
+                // The slices are clean now, so no later refcount flush will
+                // write or sync them again, yet mapping tables flushed after
+                // this point rely on their content being durable
+                self.call_fsync(0, usize::MAX, 0).await
             }
             _ => Ok(()),
         }
